@@ -9,6 +9,7 @@
      dedup <name>/<rtype>/<u|k>/<rdata> ..       => <name>/<rtype> ..
      srt <class>/<name>/<rtype>/<u|k>/<rdata> .. => <class>/<name>/<rtype>/<rdata> ..   (sort + dedup)
      label <hash> <apex>                         => Ok <owner name> <decoded first label>
+     sro (V|E|I <name>/<rtype>/<u|k>/<rdata> ..) ..   => <name>/<rtype>/<rdata> ..   (a sequence of From<Vec> / extend / insert)
      parse <octets>                              => Ok | Err 10 (short) | Err 11 (bad bitmap)   (RtypeBitmap::from_octets) *)
 let rec labels_of_wire (b : n list) : n list list =
   match b with
@@ -87,6 +88,18 @@ let handle = function
         | _ -> failwith "bad crec" in
       show_list (fun (c, ((nm, t), (_, d))) -> string_of_int (int_of_n c) ^ "/" ^ hex_of_name nm ^ "/" ^ string_of_int (int_of_n t) ^ "/" ^ hex_of_bytes d)
         (c13_sorted_records (List.map crec_of recs))
+  | "sro" :: ws ->
+      let srec_of s = match String.split_on_char '/' s with
+        | [nm; t; k; d] -> ((name_of_hex nm, n_of_int (int_of_string t)), (k = "u", bytes_of_hex d))
+        | _ -> failwith "bad srec" in
+      let rec ops acc cur = function
+        | [] -> List.rev (match cur with None -> acc | Some o -> o :: acc)
+        | ("V" | "E" | "I" as tag) :: r -> ops (match cur with None -> acc | Some o -> o :: acc) (Some (tag, [])) r
+        | w :: r -> (match cur with Some (tag, l) -> ops acc (Some (tag, l @ [srec_of w])) r | None -> failwith "sro: record before op") in
+      let mk (tag, l) = match tag with
+        | "V" -> [OpVec l] | "E" -> [OpExtend l] | _ -> List.map (fun x -> OpInsert x) l in
+      show_list (fun ((nm, t), (_, d)) -> hex_of_name nm ^ "/" ^ string_of_int (int_of_n t) ^ "/" ^ hex_of_bytes d)
+        (c13_sr_run (List.concat (List.map mk (ops [] None ws))))
   | ["label"; h; apex] ->
       show_outcome (fun (o, d) -> hex_of_name o ^ " " ^ hex_of_bytes d) (c13_label (bytes_of_hex h) (name_of_hex apex))
   | ["parse"; d] -> (match c13_bm_parse (bytes_of_hex d) with Ok _ -> "Ok" | Err e -> "Err " ^ string_of_int (int_of_n e) | _ -> "Panic")
